@@ -5,6 +5,8 @@
    ids, a "key" is the interned (Scheme, Host, Path) triple that areURLEqual / sameURL compare.
    The library functions oxy calls but does not implement are the fields of [lib]:
      render u        URL.String()
+     rawc u          strings.ReplaceAll(URL.String(), ";", "%3B"): the rendered URL with the one byte a URL may carry
+                     unescaped that a cookie value may not
      norm u          url.URL{Scheme,Host,Path}.String()           (stickycookie.normalized)
      ukey u          (u.Scheme, u.Host, u.Path)
      pkey s          url.Parse(s): None = error, Some k = (Scheme, Host, Path) of the result
@@ -26,6 +28,7 @@ Inductive codec :=
 
 Record lib := {
   render : Z -> Z;
+  rawc : Z -> Z;
   norm : Z -> Z;
   ukey : Z -> Z;
   pkey : Z -> option Z;
@@ -41,7 +44,7 @@ Definition second : Z := 1000000000.
 (* CookieValue.Get.  Fallback mints with its second codec ("to"). *)
 Fixpoint get (L : lib) (now nonce : Z) (c : codec) (u : Z) : Z :=
   match c with
-  | Raw => render L u
+  | Raw => rawc L u
   | Hash s => hash L s (norm L u)
   | Aes k ttl =>
       (* base = raw.String(); if ttl > 0 { base = base|Unix(now+ttl) } *)
@@ -180,9 +183,10 @@ Definition look_opt (fs : list fact) (t a b : Z) : option Z :=
   match look fs t a b with Some r => if r <? 0 then None else Some r | None => None end.
 
 (* tags: 1 pkey; 2 aopen; 3 bar part 0; 4 bar part 1 kind (0 absent, 1 not an integer, 2 integer); 7 its value;
-   5 seal (nonce not part of the table key: one seal per request); 6 join; 10 render; 11 norm; 12 ukey; 13 hash *)
+   5 seal (nonce not part of the table key: one seal per request); 6 join; 10 render; 11 norm; 12 ukey; 13 hash; 14 rawc *)
 Definition lib_of (fs : list fact) : lib := {|
   render := fun u => look_d fs 10 u 0 (-1);
+  rawc := fun u => look_d fs 14 u 0 (-1);
   norm := fun u => look_d fs 11 u 0 (-1);
   ukey := fun u => look_d fs 12 u 0 (-1);
   pkey := fun s => look_opt fs 1 s 0;
